@@ -36,6 +36,14 @@ func C20Scenario() *Scenario {
 		w.InlineUnsyncedHooks = true
 		opts := &BootOptions{}
 		opts.Proc.Workers = 1 + t.Pick(2, "workers")
+		// in a quarter of the runs discovery is refreshed every 2 s and spec changes may
+		// arrive while the document of the children's group-version is unavailable
+		discoveryRuns := t.Pick(4, "discovery") == 3
+		if discoveryRuns {
+			opts.Proc.Discovery = 2 * time.Second
+			w.Cfg["discoveryOutages"] = "true"
+		}
+		replacedAt := map[string][2]int{} // controller -> (old version, arrival at which the Reconcile that replaced it returned)
 		// (Seeded yield points - DESIGN 2.7 - are not used here: with a whole
 		// metacontroller process in the bubble, runs with yields stopped being repeatable,
 		// see DESIGN 13.)
@@ -157,7 +165,7 @@ func C20Scenario() *Scenario {
 					}
 					ops := []string{"create-or-update", "create-or-update", "noop-update", "delete", "recreate-unchanged", "replace"}
 					op := ops[t.Pick(len(ops), "op")]
-					if t.Pick(5, "pause") == 4 {
+					if t.Pick(5, "pause") == 4 && !discoveryRuns {
 						// the process has been up for a while (longer than any 20-minute cache in it)
 						for waited := time.Duration(0); waited < 25*time.Minute; waited += time.Minute {
 							w.Sleep(time.Minute)
@@ -216,7 +224,58 @@ func C20Scenario() *Scenario {
 							}
 							held = parkedOld()
 						}
+						outage := discoveryRuns && wasRunning && held == nil && t.Pick(2, "outage") == 1
+						gvs := []string{"kids.example.com/v1", "kids.example.com/v1beta1"}
+						if outage {
+							// the discovery documents of the children's group-versions become unavailable,
+							// and the resource map has dropped them by the time the spec changes
+							w.DiscoveryDown = map[string]bool{}
+							for _, gv := range gvs {
+								w.DiscoveryDown[gv] = true
+							}
+							for i := 0; i < 6 && w.Proc.Resources.Get("kids.example.com/v1", "widgets") != nil; i++ {
+								w.SleepHard(1100 * time.Millisecond)
+								for j := 0; j < 40 && !w.Idle(); j++ {
+									w.StepOnce(FairPolicy)
+								}
+							}
+						}
 						mkSpec(c)
+						if c.exists && outage && c.startable {
+							EditObject(w, resOf(c), "", c.name, "config", func(o Object) { o["spec"] = c.spec["spec"] })
+							opName = fmt.Sprintf("update %s/%s to v%d (%s) while discovery of the children's groups is down", c.kind, c.name, c.ver, c.why)
+							n := len(w.Proc.ReconcileLog)
+							w.Proc.Reconcile(c.kind, c.name)
+							for i := 0; i < 60 && len(w.Proc.ReconcileLog) == n; i++ {
+								w.StepOnce(FairPolicy)
+							}
+							if len(w.Proc.ReconcileLog) > n {
+								replacedAt[c.name] = [2]int{oldVer, w.Proc.ReconcileLog[n].Arrival}
+								w.Probe("c20:spec-changed-during-discovery-outage")
+							}
+							// the parents are touched: whoever is (still) running will show itself
+							for _, o := range w.Store.List(c.parentRes, "") {
+								EditObject(w, c.parentRes, mstr(o, "namespace"), mstr(o, "name"), "user", func(o Object) { setPath(o, fmt.Sprint(w.step), "metadata", "annotations", "outage") })
+							}
+							for i := 0; i < 25; i++ {
+								w.StepOnce(FairPolicy)
+							}
+							// discovery comes back; the reconciler's retry (or the next event) starts the new instance
+							w.DiscoveryDown = nil
+							for i := 0; i < 8 && w.Proc.Resources.Get("kids.example.com/v1", "widgets") == nil; i++ {
+								w.SleepHard(1100 * time.Millisecond)
+								for j := 0; j < 40 && !w.Idle(); j++ {
+									w.StepOnce(FairPolicy)
+								}
+							}
+							w.Proc.Reconcile(c.kind, c.name)
+							opLog = append(opLog, fmt.Sprintf("%d %s", w.step, opName))
+							w.logf("config %s", opName)
+							return
+						}
+						if outage {
+							w.DiscoveryDown = nil
+						}
 						if c.exists {
 							EditObject(w, resOf(c), "", c.name, "config", func(o Object) { o["spec"] = c.spec["spec"] })
 							opName = fmt.Sprintf("update %s/%s to v%d (%s)", c.kind, c.name, c.ver, c.why)
@@ -337,6 +396,20 @@ func C20Scenario() *Scenario {
 											Detail: fmt.Sprintf("%s: %s was sent by a sync of %s v%d after a later version of that controller had made its first hook call", where, q.Short(), hk.Controller, v)}
 									}
 								}
+							}
+						}
+						// ... and before its successor is built: once the Reconcile call that saw the
+						// new spec has returned - with or without a running successor - the old
+						// instance makes no more hook calls
+						for _, h := range w.Hooks {
+							if h.Kind != "sync" && h.Kind != "finalize" {
+								continue
+							}
+							if ra, ok := replacedAt[h.Controller]; ok && h.Ver == fmt.Sprintf("v%d", ra[0]) && h.Arrival > ra[1] {
+								s2 := copySig(sig)
+								s2["overlap"] = "old-instance-active-after-the-reconcile-that-replaced-it"
+								return &Violation{Prop: "C20", Class: "stale-instance-still-syncing", Sig: s2,
+									Detail: fmt.Sprintf("%s: a %s call went to %s v%d after the Reconcile call that had seen the changed spec returned (the new instance could not be started at once: discovery outage)", where, h.Kind, h.Controller, ra[0])}
 							}
 						}
 						// which instances answered the probe
